@@ -39,6 +39,7 @@ def parseOp (s : String) : Option UserOp :=
   | ["p", c, sc] => do pure (.setProg (← natList c) (← parseScript sc))
   | ["c", "redo", kg, ts] => do pure (.cmd (.redo (← natList ts) (kg == "1")))
   | ["c", "ifc", kg, ts] => do pure (.cmd (.ifchange (← natList ts) (kg == "1")))
+  | ["x", t, k, ts] => do pure (.crashCmd (← natList ts) (← t.toNat?) (← k.toNat?))
   | ["c", "ood"] => some (.cmd .ood)
   | ["c", "targets"] => some (.cmd .targets)
   | ["c", "sources"] => some (.cmd .sources)
